@@ -134,4 +134,20 @@ CHECKS["C07"] = {
           "InternalH5DatasetBasin and basins_retrieve's relative-path lookup are exercised only by the end-to-end replay harness "
           "(bounded, used when a function leaves the accepted subset). Precedence of stored features over basin features is not under contract.",
   "technique": "contract-based deductive verification: AST-generated VCs with loop invariants over an axiomatised numpy/HDF5 model, discharged by z3"}
+CHECKS["C10"] = {
+  "text": "Typestate proof over the real task functions (compress, repack, condense + condense_dataset, join, split, tdms2rtdc, with "
+          "common.setup_task_paths and RTDCWriter.__init__/__exit__/close inlined): every modelled file-system operation generates the "
+          "obligations W (write-capable opens/writes only under a '~' name that is neither an input nor a requested output), U (no "
+          "unlink/rename of an input), R (rename to a requested output only with no open handle on the source and no failed operation "
+          "before it); every write-capable operation may fail (symbolic fault per operation, then the code's own exception handling "
+          "runs); loops are cut by 'ghost state unchanged' invariants (condense_dataset) or unrolled for fixed file counts "
+          "(join 2/3 inputs, split 1/3 parts, tdms2rtdc 1 file / 2-file directory). The pre-operation state is the kill-point state.",
+  "note": "Effect contracts of callees are assumed (rtdc_copy writes only through dst, Export.hdf5 creates/writes/closes the given path, "
+          "RTDCWriter.store_* write only through self.h5file, new_dataset opens read-only, get_command_log/hashfile only read). "
+          "Path names are concrete representatives incl. three aliasing cases; which files exist, all data, flags, recorded warnings "
+          "and failures are symbolic; at most one injected failure per run. Durability (fsync) and HDF5-internal buffering are not "
+          "modelled. A bounded layer (native fault injection on the real tasks, every operation failed in turn / file system observed "
+          "before every operation, one small input per scenario) runs on every check and is the replay harness; it is labelled bounded.",
+  "technique": "contract-based deductive verification: AST-generated typestate VCs over a ghost file system with per-operation fault "
+               "injection, callee effect contracts, discharged by z3; native fault-injection replay as labelled bounded stand-in"}
 NOT_APPLICABLE = {}
